@@ -1,2 +1,502 @@
-pub fn search(_args: &[String]) -> i32 { 0 }
-pub fn replay(_text: &str) -> i32 { 0 }
+//! C03: integer operators and casts through the public API (compile + circuit eval) against exact
+//! two's-complement arithmetic.  Used as the bounded stand-in for the parts no contract reaches
+//! (multiplier, divider, shifter, the composition inside `compile`) and as witness search / replay.
+
+use crate::util::{arg, arg_u64, field, write_out, Rng};
+use garble_lang::{compile, CompileOptions};
+
+#[derive(Clone, Copy, PartialEq, Debug)]
+pub struct Ty {
+    pub bits: u32,
+    pub signed: bool,
+    pub name: &'static str,
+}
+
+pub const TYPES: [Ty; 9] = [
+    Ty { bits: 8, signed: false, name: "u8" },
+    Ty { bits: 8, signed: true, name: "i8" },
+    Ty { bits: 16, signed: false, name: "u16" },
+    Ty { bits: 16, signed: true, name: "i16" },
+    Ty { bits: 32, signed: false, name: "u32" },
+    Ty { bits: 32, signed: true, name: "i32" },
+    Ty { bits: 64, signed: false, name: "u64" },
+    Ty { bits: 64, signed: true, name: "i64" },
+    Ty { bits: 32, signed: false, name: "usize" },
+];
+
+impl Ty {
+    pub fn min(&self) -> i128 {
+        if self.signed { -(1i128 << (self.bits - 1)) } else { 0 }
+    }
+    pub fn max(&self) -> i128 {
+        if self.signed { (1i128 << (self.bits - 1)) - 1 } else { (1i128 << self.bits) - 1 }
+    }
+    pub fn fits(&self, v: i128) -> bool {
+        v >= self.min() && v <= self.max()
+    }
+    /// value of the low `bits` bits of v, interpreted in this type
+    pub fn wrap(&self, v: i128) -> i128 {
+        let m = 1i128 << self.bits;
+        let mut r = v.rem_euclid(m);
+        if self.signed && r >= (m >> 1) {
+            r -= m;
+        }
+        r
+    }
+    pub fn by_name(n: &str) -> Option<Ty> {
+        TYPES.iter().copied().find(|t| t.name == n)
+    }
+    pub fn encode(&self, v: i128) -> Vec<bool> {
+        let u = v.rem_euclid(1i128 << self.bits) as u128;
+        (0..self.bits).map(|i| (u >> (self.bits - 1 - i)) & 1 == 1).collect()
+    }
+    pub fn decode(&self, bits: &[bool]) -> i128 {
+        let mut u: i128 = 0;
+        for b in bits {
+            u = (u << 1) | (*b as i128);
+        }
+        self.wrap(u)
+    }
+    pub fn lit(&self, v: i128) -> String {
+        format!("{v}{}", self.name)
+    }
+}
+
+pub const BIN_OPS: [&str; 16] = ["+", "-", "*", "/", "%", "&", "|", "^", "<<", ">>", "<", ">", "<=", ">=", "==", "!="];
+
+#[derive(Debug, PartialEq, Clone)]
+pub enum Outcome {
+    Val(i128),
+    Bool(bool),
+    Overflow,
+    DivByZero,
+    /// either a value or an overflow panic is acceptable (MIN % -1)
+    ValOrOverflow(i128),
+}
+
+/// exact semantics of `x op y` at type `t` (shift amount `y` is a u8)
+pub fn expected_bin(op: &str, t: Ty, x: i128, y: i128) -> Outcome {
+    let chk = |v: i128| if t.fits(v) { Outcome::Val(v) } else { Outcome::Overflow };
+    match op {
+        "+" => chk(x + y),
+        "-" => chk(x - y),
+        "*" => chk(x * y),
+        "/" => {
+            if y == 0 { Outcome::DivByZero } else { chk(x / y) }
+        }
+        "%" => {
+            if y == 0 {
+                Outcome::DivByZero
+            } else if t.signed && x == t.min() && y == -1 {
+                Outcome::ValOrOverflow(0)
+            } else {
+                Outcome::Val(x % y)
+            }
+        }
+        "&" => Outcome::Val(t.wrap(x & y)),
+        "|" => Outcome::Val(t.wrap(x | y)),
+        "^" => Outcome::Val(t.wrap(x ^ y)),
+        "<<" => {
+            if y >= t.bits as i128 { Outcome::Overflow } else { Outcome::Val(t.wrap(x << y)) }
+        }
+        ">>" => {
+            if y >= t.bits as i128 { Outcome::Overflow } else { Outcome::Val(x >> y) }
+        }
+        "<" => Outcome::Bool(x < y),
+        ">" => Outcome::Bool(x > y),
+        "<=" => Outcome::Bool(x <= y),
+        ">=" => Outcome::Bool(x >= y),
+        "==" => Outcome::Bool(x == y),
+        "!=" => Outcome::Bool(x != y),
+        _ => unreachable!(),
+    }
+}
+
+pub fn expected_un(op: &str, t: Ty, x: i128) -> Outcome {
+    match op {
+        "-" => {
+            if t.fits(-x) { Outcome::Val(-x) } else { Outcome::Overflow }
+        }
+        "!" => Outcome::Val(t.wrap(!x)),
+        _ => unreachable!(),
+    }
+}
+
+fn is_cmp(op: &str) -> bool {
+    matches!(op, "<" | ">" | "<=" | ">=" | "==" | "!=")
+}
+
+pub struct Prog {
+    pub src: String,
+    circuit: garble_lang::circuit_type::CircuitType,
+}
+
+pub fn build(src: &str, dedup: bool, register: bool) -> Result<Prog, String> {
+    let opts = CompileOptions {
+        optimize_duplicate_gates: dedup,
+        circuit_kind: if register { garble_lang::CircuitKind::Register } else { garble_lang::CircuitKind::Ssa },
+        ..Default::default()
+    };
+    let _ = compile; // (plain compile == compile_with_options with defaults)
+    match garble_lang::compile_with_options(src, opts) {
+        Ok(p) => Ok(Prog { src: src.to_string(), circuit: p.circuit }),
+        Err(e) => Err(format!("{e:?}")),
+    }
+}
+
+/// Observed behaviour: Err(reason code) for a panic, Ok(result bits) otherwise
+pub fn run(p: &Prog, args: &[Vec<bool>]) -> Result<Vec<bool>, usize> {
+    let out = p.circuit.eval(args);
+    if out[0] {
+        let mut r = 0usize;
+        for b in &out[1..33] {
+            r = (r << 1) | (*b as usize);
+        }
+        Err(r)
+    } else {
+        Ok(out[161..].to_vec())
+    }
+}
+
+pub fn check_outcome(t_res: Ty, exp: &Outcome, obs: &Result<Vec<bool>, usize>) -> Result<(), String> {
+    let show = |o: &Result<Vec<bool>, usize>| match o {
+        Err(1) => "panic Overflow".to_string(),
+        Err(2) => "panic Division By Zero".to_string(),
+        Err(3) => "panic Out Of Bounds".to_string(),
+        Err(r) => format!("panic with reason code {r}"),
+        Ok(bits) if bits.len() == 1 => format!("{}", bits[0]),
+        Ok(bits) => format!("{}", t_res.decode(bits)),
+    };
+    let ok = match (exp, obs) {
+        (Outcome::Val(v), Ok(bits)) => bits.len() == t_res.bits as usize && t_res.decode(bits) == *v,
+        (Outcome::Bool(b), Ok(bits)) => bits.len() == 1 && bits[0] == *b,
+        (Outcome::Overflow, Err(1)) => true,
+        (Outcome::DivByZero, Err(2)) => true,
+        (Outcome::ValOrOverflow(_), Err(1)) => true,
+        (Outcome::ValOrOverflow(v), Ok(bits)) => t_res.decode(bits) == *v,
+        _ => false,
+    };
+    if ok {
+        Ok(())
+    } else {
+        Err(format!("expected {exp:?}, observed {}", show(obs)))
+    }
+}
+
+#[derive(Clone, Debug)]
+pub struct Case {
+    pub kind: String, // bin | un | cast
+    pub op: String,
+    pub ty: String,
+    pub ty2: String, // cast target
+    pub mode: String, // vv | vc | cv
+    pub x: i128,
+    pub y: i128,
+    pub dedup: bool,
+    pub register: bool,
+}
+
+impl Case {
+    fn source(&self) -> String {
+        let t = Ty::by_name(&self.ty);
+        match self.kind.as_str() {
+            "bin" => {
+                let t = t.unwrap();
+                let shift = self.op == "<<" || self.op == ">>";
+                let ty_y = if shift { "u8" } else { t.name };
+                let res = if is_cmp(&self.op) { "bool" } else { t.name };
+                let ylit = if shift { format!("{}u8", self.y) } else { t.lit(self.y) };
+                match self.mode.as_str() {
+                    "vv" => format!("pub fn main(x: {}, y: {ty_y}) -> {res} {{ x {} y }}", t.name, self.op),
+                    "vc" => format!("pub fn main(x: {}) -> {res} {{ x {} {ylit} }}", t.name, self.op),
+                    _ => format!("pub fn main(y: {ty_y}) -> {res} {{ {} {} y }}", t.lit(self.x), self.op),
+                }
+            }
+            "un" => format!("pub fn main(x: {}) -> {} {{ {}x }}", self.ty, self.ty, self.op),
+            _ => format!("pub fn main(x: {}) -> {} {{ x as {} }}", self.ty, self.ty2, self.ty2),
+        }
+    }
+
+    fn args(&self) -> Vec<Vec<bool>> {
+        if self.ty == "bool" {
+            return vec![vec![self.x != 0]];
+        }
+        let t = Ty::by_name(&self.ty).unwrap();
+        match self.kind.as_str() {
+            "bin" => {
+                let shift = self.op == "<<" || self.op == ">>";
+                let ty_y = if shift { TYPES[0] } else { t };
+                match self.mode.as_str() {
+                    "vv" => vec![t.encode(self.x), ty_y.encode(self.y)],
+                    "vc" => vec![t.encode(self.x)],
+                    _ => vec![ty_y.encode(self.y)],
+                }
+            }
+            _ => vec![t.encode(self.x)],
+        }
+    }
+
+    fn expected(&self) -> (Ty, Outcome) {
+        match self.kind.as_str() {
+            "bin" => {
+                let t = Ty::by_name(&self.ty).unwrap();
+                (t, expected_bin(&self.op, t, self.x, self.y))
+            }
+            "un" => {
+                let t = Ty::by_name(&self.ty).unwrap();
+                (t, expected_un(&self.op, t, self.x))
+            }
+            _ => {
+                // cast: bool -> int gives 0/1; int -> int truncates / extends like Rust `as`
+                let t2 = Ty::by_name(&self.ty2).unwrap();
+                (t2, Outcome::Val(t2.wrap(self.x)))
+            }
+        }
+    }
+
+    pub fn to_text(&self, what: &str) -> String {
+        format!(
+            "kind: c03-op\ncase: {}\nop: {}\nty: {}\nty2: {}\nmode: {}\nx: {}\ny: {}\ndedup: {}\nregister: {}\nprogram: {}\nobserved: {}\n",
+            self.kind, self.op, self.ty, self.ty2, self.mode, self.x, self.y, self.dedup, self.register, self.source(), what
+        )
+    }
+}
+
+thread_local! {
+    static KNOWN: std::cell::RefCell<(bool, u64, String)> = const { std::cell::RefCell::new((false, 0, String::new())) };
+}
+
+fn eval_case(c: &Case, cache: &mut std::collections::HashMap<(String, bool, bool), Result<Prog, String>>) -> Result<(), String> {
+    let src = c.source();
+    let key = (src.clone(), c.dedup, c.register);
+    let p = cache.entry(key).or_insert_with(|| build(&src, c.dedup, c.register));
+    let p = match p {
+        Ok(p) => p,
+        Err(e) => return Err(format!("program does not compile: {e}")),
+    };
+    let (t_res, exp) = c.expected();
+    let obs = run(p, &c.args());
+    let r = check_outcome(t_res, &exp, &obs);
+    if r.is_err() && KNOWN.with(|k| k.borrow().0) && is_known_f1(c, &exp, &obs) {
+        KNOWN.with(|k| {
+            let mut k = k.borrow_mut();
+            k.1 += 1;
+            if k.2.is_empty() {
+                k.2 = format!("`{}` with x={} y={}", c.source(), c.x, c.y);
+            }
+        });
+        return Ok(());
+    }
+    r
+}
+
+fn boundary(t: Ty) -> Vec<i128> {
+    let mut v = vec![t.min(), t.min() + 1, -2, -1, 0, 1, 2, 3, t.max() - 1, t.max(), t.max() / 2, t.max() / 2 + 1, 64, 7, t.bits as i128 - 1, t.bits as i128];
+    v.retain(|x| t.fits(*x));
+    v.sort();
+    v.dedup();
+    v
+}
+
+fn rand_val(rng: &mut Rng, t: Ty) -> i128 {
+    match rng.below(4) {
+        0 => {
+            let b = boundary(t);
+            b[rng.below(b.len())]
+        }
+        1 => t.wrap((rng.next() % 16) as i128 - 8),
+        _ => t.wrap(rng.next() as i128),
+    }
+}
+
+/// Known finding C03-F1 (known_findings.json): a signed multiplication by a negative literal constant c with
+/// 2 <= |c| < bits is rewritten to -(x + .. + x); when the exact product is MIN the inner sum is 2^(bits-1) and
+/// overflows although its negation is representable.  Matches exactly those cases and nothing else.
+pub fn is_known_f1(c: &Case, exp: &Outcome, obs: &Result<Vec<bool>, usize>) -> bool {
+    if c.kind != "bin" || c.op != "*" {
+        return false;
+    }
+    let Some(t) = Ty::by_name(&c.ty) else { return false };
+    let k = match c.mode.as_str() {
+        "vc" => c.y,
+        "cv" => c.x,
+        _ => return false,
+    };
+    t.signed && k <= -2 && -k < t.bits as i128 && *exp == Outcome::Val(t.min()) && *obs == Err(1)
+}
+
+/// finding ids of operator/type classes that are recorded as known (see known_findings.json)
+pub fn class_of(c: &Case) -> String {
+    match c.kind.as_str() {
+        "bin" => format!("{} {} {}", c.ty, c.op, c.mode),
+        "un" => format!("{}{}", c.op, c.ty),
+        _ => format!("{} as {}", c.ty, c.ty2),
+    }
+}
+
+pub fn search(args: &[String]) -> i32 {
+    let seed = arg_u64(args, "--seed", 1);
+    if arg(args, "--known").map(|k| k.split(',').any(|x| x == "C03-F1")).unwrap_or(false) {
+        KNOWN.with(|k| k.borrow_mut().0 = true);
+    }
+    let exhaustive8 = args.iter().any(|a| a == "--exhaustive8");
+    let random = arg_u64(args, "--random", 3000);
+    let consts = arg_u64(args, "--consts", 6) as usize;
+    let only = arg(args, "--only"); // e.g. "add,sub,neg,cmp,cast,bit"
+    let skip: Vec<String> = arg(args, "--skip-classes").map(|s| s.split(';').map(|x| x.trim().to_string()).collect()).unwrap_or_default();
+    let want = |group: &str| only.as_ref().map(|o| o.split(',').any(|g| g == group)).unwrap_or(true);
+    let group_of = |op: &str| match op {
+        "+" => "add",
+        "-" => "sub",
+        "*" => "mul",
+        "/" | "%" => "div",
+        "<<" | ">>" => "shift",
+        "&" | "|" | "^" => "bit",
+        _ => "cmp",
+    };
+    let mut rng = Rng(seed ^ 0xC03);
+    let mut cache = std::collections::HashMap::new();
+    let mut n = 0u64;
+    let mut fails: Vec<(Case, String)> = vec![];
+    let mut seen_classes = std::collections::HashSet::new();
+    let mut try_case = |c: Case, cache: &mut std::collections::HashMap<_, _>, fails: &mut Vec<(Case, String)>, n: &mut u64| {
+        let cl = class_of(&c);
+        if skip.contains(&cl) {
+            return;
+        }
+        *n += 1;
+        if let Err(w) = eval_case(&c, cache) {
+            if seen_classes.insert(cl) {
+                fails.push((c, w));
+            }
+        }
+    };
+    // unary and binary operators
+    for t in TYPES {
+        let small = t.bits == 8;
+        if t.signed && want("neg") {
+            let xs: Vec<i128> = if small { (t.min()..=t.max()).collect() } else { boundary(t) };
+            for x in xs {
+                try_case(Case { kind: "un".into(), op: "-".into(), ty: t.name.into(), ty2: String::new(), mode: "v".into(), x, y: 0, dedup: true, register: false }, &mut cache, &mut fails, &mut n);
+            }
+        }
+        if want("bit") {
+            for x in boundary(t) {
+                try_case(Case { kind: "un".into(), op: "!".into(), ty: t.name.into(), ty2: String::new(), mode: "v".into(), x, y: 0, dedup: true, register: false }, &mut cache, &mut fails, &mut n);
+            }
+        }
+        for op in BIN_OPS {
+            if !want(group_of(op)) {
+                continue;
+            }
+            let shift = op == "<<" || op == ">>";
+            let ty_y = if shift { TYPES[0] } else { t };
+            // var op var
+            let pairs: Vec<(i128, i128)> = if small && exhaustive8 {
+                let mut v = vec![];
+                for x in t.min()..=t.max() {
+                    for y in ty_y.min()..=ty_y.max() {
+                        v.push((x, y));
+                    }
+                }
+                v
+            } else {
+                let mut v = vec![];
+                for x in boundary(t) {
+                    for y in boundary(ty_y) {
+                        v.push((x, y));
+                    }
+                }
+                for _ in 0..(random / 40) {
+                    v.push((rand_val(&mut rng, t), rand_val(&mut rng, ty_y)));
+                }
+                v
+            };
+            for (x, y) in pairs {
+                for (dedup, register) in [(true, false)] {
+                    try_case(Case { kind: "bin".into(), op: op.into(), ty: t.name.into(), ty2: String::new(), mode: "vv".into(), x, y, dedup, register }, &mut cache, &mut fails, &mut n);
+                }
+            }
+            // var op const / const op var: a few constants (boundary + random), boundary + random variables
+            let mut cs = boundary(ty_y);
+            while cs.len() > consts {
+                let i = rng.below(cs.len());
+                cs.remove(i);
+            }
+            for c in cs {
+                for x in boundary(t).into_iter().chain((0..3).map(|_| rand_val(&mut rng, t))) {
+                    try_case(Case { kind: "bin".into(), op: op.into(), ty: t.name.into(), ty2: String::new(), mode: "vc".into(), x, y: c, dedup: true, register: false }, &mut cache, &mut fails, &mut n);
+                }
+            }
+            let mut cs = boundary(t);
+            while cs.len() > consts {
+                let i = rng.below(cs.len());
+                cs.remove(i);
+            }
+            for c in cs {
+                for y in boundary(ty_y).into_iter().chain((0..3).map(|_| rand_val(&mut rng, ty_y))) {
+                    try_case(Case { kind: "bin".into(), op: op.into(), ty: t.name.into(), ty2: String::new(), mode: "cv".into(), x: c, y, dedup: true, register: false }, &mut cache, &mut fails, &mut n);
+                }
+            }
+            cache.retain(|k, _| !k.0.contains("main(x") || k.0.contains(", y:")); // drop per-constant programs
+        }
+    }
+    // casts between every ordered pair of primitive types
+    if want("cast") {
+        for t1 in TYPES {
+            for t2 in TYPES {
+                let xs: Vec<i128> = if t1.bits <= 16 && exhaustive8 { (t1.min()..=t1.max()).collect() } else {
+                    boundary(t1).into_iter().chain((0..20).map(|_| rand_val(&mut rng, t1))).collect() };
+                for x in xs {
+                    try_case(Case { kind: "cast".into(), op: "as".into(), ty: t1.name.into(), ty2: t2.name.into(), mode: "v".into(), x, y: 0, dedup: true, register: false }, &mut cache, &mut fails, &mut n);
+                }
+            }
+            for x in [0i128, 1] {
+                try_case(Case { kind: "cast".into(), op: "as".into(), ty: "bool".into(), ty2: t1.name.into(), mode: "v".into(), x, y: 0, dedup: true, register: false }, &mut cache, &mut fails, &mut n);
+            }
+        }
+    }
+    KNOWN.with(|k| {
+        let k = k.borrow();
+        if k.1 > 0 {
+            println!("known-finding: C03-F1 cases={} example={}", k.1, k.2);
+        }
+    });
+    if fails.is_empty() {
+        println!("c03 search: {n} operator / cast evaluations through compile + eval agree with exact arithmetic");
+        return 0;
+    }
+    let mut text = fails[0].0.to_text(&fails[0].1);
+    text.push_str(&format!("failing_classes: {}\n", fails.iter().map(|(c, _)| class_of(c)).collect::<Vec<_>>().join("; ")));
+    for (c, w) in fails.iter().skip(1).take(40) {
+        text.push_str(&format!("also: {} | x={} y={} | {}\n", c.source(), c.x, c.y, w));
+    }
+    write_out(args, &text);
+    3
+}
+
+pub fn replay(text: &str) -> i32 {
+    let g = |k: &str| field(text, k).unwrap_or_default();
+    let c = Case {
+        kind: g("case"),
+        op: g("op"),
+        ty: g("ty"),
+        ty2: g("ty2"),
+        mode: g("mode"),
+        x: g("x").parse().unwrap_or(0),
+        y: g("y").parse().unwrap_or(0),
+        dedup: g("dedup") != "false",
+        register: g("register") == "true",
+    };
+    let mut cache = std::collections::HashMap::new();
+    match eval_case(&c, &mut cache) {
+        Ok(()) => {
+            println!("replay: `{}` with x={} y={} agrees with exact arithmetic", c.source(), c.x, c.y);
+            0
+        }
+        Err(w) => {
+            println!("replay: REPRODUCED: `{}` with x={} y={}: {w}", c.source(), c.x, c.y);
+            3
+        }
+    }
+}
